@@ -44,7 +44,8 @@ func gen(t *rapid.T) *Case {
 		// leafref, ...), owner B holds the dependent node; later A goes away or changes and something else
 		// (schema default, running value, another owner) takes over
 		pairs := [][2]string{{"defmode-on", "must-default-ok"}, {"defmode-on-dep", "must-default-ok"}, {"defmode-off", "must-default-ok"},
-			{"via-ok", "via-ok2"}, {"via-ok", "wref-ok"}, {"svc-a", "via-ok"}, {"svc-a", "wref-ok"}, {"via-ok2", "chk-ok"}}
+			{"via-ok", "via-ok2"}, {"via-ok", "wref-ok"}, {"svc-a", "via-ok"}, {"svc-a", "wref-ok"}, {"via-ok2", "chk-ok"},
+			{"defmode-off", "dep2-only"}, {"defmode-off-dep2", "plain-1"}}
 		p := rapid.SampledFrom(pairs).Draw(t, "takeover-pair")
 		oa, ob := 0, 1
 		if rapid.Bool().Draw(t, "takeover-swap") {
@@ -58,7 +59,13 @@ func gen(t *rapid.T) *Case {
 		} else {
 			c.Steps = append(c.Steps, vlib.Step{Intents: []vlib.IntentOp{mk(oa, p[0])}}, vlib.Step{Intents: []vlib.IntentOp{mk(ob, p[1])}})
 		}
-		c.Steps = append(c.Steps, vlib.Step{Intents: []vlib.IntentOp{{Owner: oa, Kind: "delete", Keep: true, Form: "typed"}}})
+		if rapid.Bool().Draw(t, "takeover-shrink") {
+			// A stays but its new version no longer holds the value (an update that drops a leaf)
+			shr := mk(oa, rapid.SampledFrom([]string{"plain-1", "dep2-only", "must-default-ok", "rng-s-ok"}).Draw(t, "takeover-rest"))
+			c.Steps = append(c.Steps, vlib.Step{Intents: []vlib.IntentOp{shr}})
+		} else {
+			c.Steps = append(c.Steps, vlib.Step{Intents: []vlib.IntentOp{{Owner: oa, Kind: "delete", Keep: true, Form: "typed"}}})
+		}
 		n = rapid.IntRange(0, 4).Draw(t, "nsteps-tail")
 	}
 	for i := 0; i < n; i++ {
